@@ -131,6 +131,8 @@ type SPE struct {
 	// Env seeds values (e.g. when starting in the middle of a function).
 	SeedEnv map[ssa.Value]*Expr
 
+	captureEnv map[ssa.Value]*Expr // filled with the environment at the first "stop"
+
 	Paths     []*Path
 	Truncated int // paths cut by MaxVisits
 	Overflow  bool
@@ -151,6 +153,7 @@ type pathState struct {
 	allocs  map[string]bool // alloc address strings created on this path
 	blocks  []int
 	epochs  map[string]int
+	nRange  int
 }
 
 func (s *pathState) clone() *pathState {
@@ -163,6 +166,7 @@ func (s *pathState) clone() *pathState {
 		impure: make(map[string]ssa.Instruction, len(s.impure)),
 		allocs: make(map[string]bool, len(s.allocs)),
 		ambig:  s.ambig,
+		nRange: s.nRange,
 	}
 	for k, v := range s.env {
 		n.env[k] = v
@@ -271,6 +275,11 @@ func (x *SPE) block(st *pathState, b, pred *ssa.BasicBlock) {
 					n = phi.Name()
 				}
 				phis[n] = x.val(st, phi.Edges[pi])
+			}
+		}
+		if x.captureEnv != nil && len(x.captureEnv) == 0 {
+			for k, v := range st.env {
+				x.captureEnv[k] = v
 			}
 		}
 		x.finish(st, "stop", nil, b)
@@ -524,6 +533,20 @@ func (x *SPE) load(st *pathState, addr *Expr, t types.Type, pos token.Pos) *Expr
 	if v, ok := st.cells[k]; ok {
 		return v
 	}
+	// a field of a cell that was stored as a whole
+	if addr.Op == OpFieldAddr {
+		if pv, ok := st.cells[addr.Args[0].String()]; ok && pv != nil {
+			return &Expr{Op: OpField, Args: []*Expr{pv}, Name: addr.Name, Type: t, Pos: pos}
+		}
+		if addr.Args[0].Op == OpFieldAddr {
+			if _, ok := st.cells[addr.Args[0].Args[0].String()]; ok {
+				parent := x.load(st, addr.Args[0], nil, pos)
+				if parent.Op == OpField {
+					return &Expr{Op: OpField, Args: []*Expr{parent}, Name: addr.Name, Type: t, Pos: pos}
+				}
+			}
+		}
+	}
 	if ep := st.epochOf(k); ep > 0 {
 		name, _ := stripAddr(k)
 		v := &Expr{Op: OpFresh, Name: name, ID: ep, Type: t, Pos: pos}
@@ -730,7 +753,8 @@ func (x *SPE) instr(st *pathState, in ssa.Instruction) {
 		}
 		st.cells[k] = v
 	case *ssa.Range:
-		st.env[in] = &Expr{Op: OpRange, Args: []*Expr{x.val(st, in.X)}, Type: in.Type(), Pos: in.Pos()}
+		st.nRange++
+		st.env[in] = &Expr{Op: OpRange, Args: []*Expr{x.val(st, in.X)}, Type: in.Type(), Pos: in.Pos(), ID: st.nRange}
 	case *ssa.Next:
 		n := st.execs[in]
 		st.execs[in]++
